@@ -9,12 +9,6 @@ open Qfx
 
 /-! ## 11. disconnecting -/
 
-theorem setState_connected (fuel : Nat) (s : Sess) (next : SState) (h : next.connected = true) :
-    setState fuel s next = s.setSt next := by
-  cases fuel with
-  | zero => rfl
-  | succ n => unfold setState; simp [h]
-
 theorem c8o_onLogout (g : G8) : c8o g .onLogout = { g with cb := false, notified := true, ok := g.ok && !g.notified } := rfl
 theorem c8o_closed (g : G8) : c8o g .closed = { g with conn := false, ok := g.ok && !g.cb } := rfl
 
